@@ -160,6 +160,34 @@ def gen_cfa(rng, ptr):
     return (name, *vals)
 
 
+_ASM_MODULE = []
+
+
+def assemble_directive(text):
+    """[(directive, operands)] the Assembler records for one CFI line inside
+    a procedure (start/end directives left out)"""
+    import gtirb
+    from gtirb_test_helpers import create_test_module
+    from gtirb_rewriting.assembler import Assembler
+    if not _ASM_MODULE:
+        _ASM_MODULE.append(create_test_module(
+            gtirb.Module.FileFormat.ELF, gtirb.Module.ISA.X64, ["DYN"]))
+    ir, m = _ASM_MODULE[0]
+    a = Assembler(m)
+    try:
+        a.assemble(".cfi_startproc\nnop\n" + text + "\nnop\n.cfi_endproc\n")
+        res = a.finalize()
+    except Exception as e:  # noqa
+        return [("raises", [type(e).__name__])]
+    out = []
+    for off, ds in sorted(res.create_cfi_directives().items(),
+                          key=lambda kv: kv[0].displacement):
+        for name, args, _ in ds:
+            if name not in (".cfi_startproc", ".cfi_endproc"):
+                out.append((name, list(args)))
+    return out
+
+
 def gen_case(rng, tier, index):
     order = rng.choice(["little", "big"])
     ptr = rng.choice([4, 8])
@@ -167,7 +195,8 @@ def gen_case(rng, tier, index):
         ["op", "cfa", "range", "trunc", "concat", "const", "overrun",
          "garbage"],
         [20, 20, 14, 12, 8, 18, 4, 6])[0]
-    c = {"kind": kind, "order": order, "ptr": ptr}
+    c = {"kind": kind, "order": order, "ptr": ptr,
+         "via_assembler": rng.random() < 0.3}
     if kind == "op":
         c["op"] = gen_op(rng, ptr)
         c["tail"] = list(rng.randbytes(rng.randrange(0, 4)))
@@ -373,6 +402,18 @@ def run_case(c):
                 viol.append({"key": f"gtirb-encoding-differs:{ref_obj[0]}",
                              "msg": f"{ref_obj}: {d} {args} -> {again.hex()} "
                                     f"!= {enc_ref.hex()}"})
+            if order == "little" and ptr == 8 and d == ".cfi_escape" and \
+                    len(enc_ref) < 200 and c.get("via_assembler"):
+                # the textual form, through the library's own assembler
+                # (what a patch author writes), must arrive in the
+                # cfiDirectives table byte for byte
+                got = assemble_directive(obj.assembly_string(order, ptr))
+                ctr["assembled_escapes"] = ctr.get("assembled_escapes", 0) + 1
+                if got != [(d, list(args))]:
+                    viol.append({
+                        "key": "assembled-escape-differs",
+                        "msg": f"{ref_obj}: {got} != {[(d, list(args))]}"[
+                            :400]})
 
     if kind == "op":
         op = tuple(c["op"])
